@@ -100,10 +100,54 @@ def probe_cases(ctx):
     return fixed
 
 
+def disagreement_violations(ctx, sub, prop):
+    """search() found no oracle-level failure although the real Session and the transcription
+    disagree in what the property speaks about: the disagreeing histories themselves are the
+    failing inputs (the theorems hold for the transcription, and on this input the code is not
+    the transcription). Only reached when a correspondence obligation is already broken."""
+    known = known_keys(ctx.pid)
+    if any(v["key"] not in known for v in sub.violations):
+        return
+    done = set()
+    for d in ctx.disagreements:
+        c = d["case"]
+        key = "%s-model:%s-differs-from-transcription" % (prop, c["ops"][-1][0])
+        if key in done:
+            continue
+        done.add(key)
+        sub.violation(key, {"eoc": c["eoc"], "ops": c["ops"], "model_disagreement": True},
+                      "after the last operation the real Session shows %s, the transcribed model %s" % (d["impl"], d["model"]))
+        if len(done) >= 3:
+            break
+
+
+def replay_disagreement(ctx, obj, prop):
+    from harness import lib_uow_gen as G
+
+    c = obj["case"]
+    eoc, ops, recs = G.run_fixed(c["eoc"], c["ops"])
+    strs = [L.fmt_record(r) if r else "bad-oid" for r in recs]
+    model = ctx.driver([request(eoc, ops)])[0].split(";")
+    differs = False
+    for j, (op, s_) in enumerate(zip(ops, strs)):
+        m = model[j] if j < len(model) else "abstain"
+        vouch = m != "abstain" and not m.endswith("|nondet") and s_ != "bad-oid"
+        bad = vouch and L.project(m, prop) != L.project(s_, prop)
+        print("   %-14s %s%s" % (L.fmt_op(op), L.project(s_, prop) if s_ != "bad-oid" else s_, "   <-- model: " + L.project(m, prop) if bad else ""))
+        if not vouch:
+            break
+        if bad:
+            differs = True
+            break
+    return differs
+
+
 def replay(ctx, obj, prop, oracle):
     from harness import lib_uow_gen as G
 
     c = obj["case"]
+    if c.get("model_disagreement"):
+        return replay_disagreement(ctx, obj, prop)
     eoc, ops, recs = G.run_fixed(c["eoc"], c["ops"])
     f = oracle(eoc, ops, recs)
     print("replay %s eoc=%s ops=%s" % (prop.upper(), eoc, ",".join(L.fmt_op(o) for o in ops)))
